@@ -1,6 +1,6 @@
 use std::sync::LazyLock;
 
-use bigdecimal::{BigDecimal, FromPrimitive, One, Signed, ToPrimitive, Zero};
+use bigdecimal::{BigDecimal, FromPrimitive, One, RoundingMode, Signed, ToPrimitive, Zero};
 use num_bigint::BigInt;
 
 #[derive(Clone, Debug)]
@@ -149,7 +149,7 @@ impl SparqlNumber {
         match self {
             SparqlNumber::NativeInt(inner) => (*inner).into(),
             SparqlNumber::BigInt(inner) => inner.clone().into(),
-            SparqlNumber::Decimal(inner) => (inner.to_ref() + DEC_0_5.to_ref()).round(0).into(),
+            SparqlNumber::Decimal(inner) => inner.with_scale_round(0, RoundingMode::Ceiling).into(),
             SparqlNumber::Float(inner) => inner.ceil().into(),
             SparqlNumber::Double(inner) => inner.ceil().into(),
         }
@@ -159,7 +159,7 @@ impl SparqlNumber {
         match self {
             SparqlNumber::NativeInt(inner) => (*inner).into(),
             SparqlNumber::BigInt(inner) => inner.clone().into(),
-            SparqlNumber::Decimal(inner) => (inner.to_ref() - DEC_0_5.to_ref()).round(0).into(),
+            SparqlNumber::Decimal(inner) => inner.with_scale_round(0, RoundingMode::Floor).into(),
             SparqlNumber::Float(inner) => inner.floor().into(),
             SparqlNumber::Double(inner) => inner.floor().into(),
         }
@@ -169,9 +169,13 @@ impl SparqlNumber {
         match self {
             SparqlNumber::NativeInt(inner) => (*inner).into(),
             SparqlNumber::BigInt(inner) => inner.clone().into(),
-            SparqlNumber::Decimal(inner) => inner.round(0).into(),
-            SparqlNumber::Float(inner) => inner.round().into(),
-            SparqlNumber::Double(inner) => inner.round().into(),
+            // fn:round rounds halves towards positive infinity
+            // (BigDecimal::round rounds them to even, f64::round away from zero)
+            SparqlNumber::Decimal(inner) => (inner.to_ref() + DEC_0_5.to_ref())
+                .with_scale_round(0, RoundingMode::Floor)
+                .into(),
+            SparqlNumber::Float(inner) => (xpath_round(f64::from(*inner)) as f32).into(),
+            SparqlNumber::Double(inner) => xpath_round(*inner).into(),
         }
     }
 
